@@ -36,6 +36,8 @@ def known_shape(stim, b, findings):
             continue
         if sh.get("want_has") == "big" and not (doc_has(b["want"], lambda d: d["k"] == "big") or doc_has(stim["start"], lambda d: d["k"] == "big")):
             continue
+        if sh.get("want_has") == "keyword-string" and not doc_has(b["want"], lambda d: d["k"] == "str" and d["v"] in ("true", "false", "null")):
+            continue
         if sh.get("want_has") == "false" and not doc_has(b["want"], lambda d: d["k"] == "bool" and d["v"] is False):
             continue
         return f["feature"]
